@@ -792,6 +792,33 @@ def gen_midi(repo, f=lstrlit):
     out.append("end Mingus.Gen.Midi")
     return "\n".join(out) + "\n"
 
+# ---------------------------------------------------------------- sequencer (C18)
+SEQ_METHODS = ["__init__", "attach", "detach", "notify_listeners", "set_instrument", "control_change", "play_Note", "stop_Note",
+               "play_NoteContainer", "stop_NoteContainer", "play_Bar", "play_Bars", "play_Track", "play_Tracks",
+               "play_Composition", "modulation", "main_volume"]
+
+def gen_sequencer(repo, f=lstrlit):
+    t = parse(repo, "mingus/midi/sequencer.py")
+    c = cls(t, "Sequencer")
+    ot = parse(repo, "mingus/midi/sequencer_observer.py")
+    oc = cls(ot, "SequencerObserver")
+    it = parse(repo, "mingus/containers/instrument.py")
+    mi = cls(it, "MidiInstrument")
+    names = None
+    for n in mi.body:
+        if isinstance(n, ast.Assign) and getattr(n.targets[0], "id", None) == "names":
+            names = lit(n.value)
+    if names is None:
+        raise Shape("MidiInstrument.names not found")
+    out = ["import Mingus.Model.Basic", "namespace Mingus.Gen.Sequencer", "open Mingus"]
+    out.append("def msgConsts : List (List Char × List Char) := " + class_defaults(c, f))
+    out.append("def sources : List (List Char × List (List Char)) := " + src_table(c, SEQ_METHODS, f))
+    out.append("def observerNotify : List (List Char) := " + llist(f(ast.unparse(x)) for x in body_wo_doc(method(oc, "notify"))))
+    out.append("def gmNames : List (List Char) := " + llist(f(x) for x in names))
+    out.append("def midiInstrumentDefaults : List (List Char × List Char) := " + llist("(%s, %s)" % (f(n.targets[0].id), f(ast.unparse(n.value))) for n in mi.body if isinstance(n, ast.Assign) and getattr(n.targets[0], "id", None) in ("instrument_nr", "name")))
+    out.append("end Mingus.Gen.Sequencer")
+    return "\n".join(out) + "\n"
+
 GENERATORS = {
     "Notes": gen_notes,
     "Keys": gen_keys,
@@ -806,6 +833,7 @@ GENERATORS = {
     "Track": gen_track,
     "Classes": gen_classes,
     "Midi": gen_midi,
+    "Sequencer": gen_sequencer,
 }
 
 def main():
